@@ -124,11 +124,17 @@ func writePostings(w *writer, s *postingsBuilder, ngramText *simpleSection,
 	endRunes.end(w)
 }
 
-func (b *ShardBuilder) Write(out io.Writer) error {
+func (b *ShardBuilder) Write(out io.Writer) (err error) {
 	next := b.indexFormatVersion == NextIndexFormatVersion
 
 	buffered := bufio.NewWriterSize(out, 1<<20)
-	defer buffered.Flush()
+	defer func() {
+		// Most of the shard only reaches out here. A failure to write it (eg disk
+		// full) must not be reported as a successfully written shard.
+		if ferr := buffered.Flush(); err == nil {
+			err = ferr
+		}
+	}()
 
 	w := &writer{w: buffered}
 	toc := indexTOC{}
